@@ -804,6 +804,49 @@ def c17(scn):
     return fails
 
 
+def c17_mesh(scn):
+    """meshes without a status argument: status = fixed value exactly on the nodes of an edge that
+    belongs to one triangle; filtered iteration and default base levels follow that array"""
+    fails = []
+    t = scn.calls[0].toks if scn.calls else []
+    if len(t) < 4 or t[1] != "mesh" or scn.calls[0].O.get("grid") != ["ok"]:
+        return fails
+    npts, nt = int(t[2]), int(t[3])
+    o = 4 + 2 * npts
+    if t[o + 3 * nt:] not in ([], ["none"]):
+        return fails
+    from collections import Counter
+    ec = Counter()
+    for k in range(nt):
+        a, b, c = int(t[o + 3 * k]), int(t[o + 3 * k + 1]), int(t[o + 3 * k + 2])
+        for e in ((b, c), (c, a), (a, b)):
+            ec[(min(e), max(e))] += 1
+    st = [0] * npts
+    for (a, b), k in ec.items():
+        if k == 1 and a != b:
+            st[a] = st[b] = 1
+    for c in scn.calls:
+        if c.cmd == "grid_common" and "status" in c.O:
+            got = [int(x) for x in c.O["status"]]
+            if got != st:
+                bad = [k for k in range(min(len(got), len(st))) if got[k] != st[k]][:4]
+                fails.append(("status_composition", "mesh nodes %s: %s, expected %s (fixed value exactly on edges of one triangle)" % (bad, [got[k] for k in bad], [st[k] for k in bad])))
+        if c.cmd == "iter" and "iter" in c.O:
+            which, d = c.toks[1], c.toks[2]
+            want = [i for i in range(npts) if which == "all" or st[i] == STV[which]]
+            if d == "rev":
+                want = want[::-1]
+            got = [int(x) for x in c.O["iter"][2:]]
+            if got != want:
+                fails.append(("filtered_iteration", "mesh %s %s: %d indices vs %d expected" % (which, d, len(got), len(want))))
+        if c.cmd == "graph" and c.O.get("graph") == ["ok"] and "base" in c.O:
+            got = [int(x) for x in c.O["base"]]
+            want = [i for i in range(npts) if st[i] == 1]
+            if got != want:
+                fails.append(("default_base_levels", "mesh: %d base levels vs %d fixed-value nodes" % (len(got), len(want))))
+    return fails
+
+
 # --------------------------------------------------------------------------- C09
 
 def c09(scn):
